@@ -431,6 +431,7 @@ impl<'a, C: MlsConfig> Hist<'a, C> {
             let Some(m) = m else { continue };
             let mi = self.w.push_msg("app", &sname, epoch, m, "");
             self.tap_broadcast(mi);
+            self.ghost_traffic(mi);
             for &i in &active {
                 if i == s {
                     continue;
@@ -806,6 +807,9 @@ impl<'a, C: MlsConfig> Hist<'a, C> {
                     }
                 }
             }
+        }
+        for mi in round_props.clone() {
+            self.ghost_traffic(mi);
         }
         // revocations take effect now: every member's application refuses these identities from here on
         if !revoke_after_delivery.is_empty() {
@@ -1365,6 +1369,37 @@ impl<'a, C: MlsConfig> Hist<'a, C> {
             Err(e) => {
                 self.rep.op("reload", &Res::Err(err_class(&e)));
                 self.fail("C06", format!("{n} cannot load the group it just wrote: {}", err_class(&e)));
+            }
+        }
+    }
+
+    /// C02: the retained group of a removed member gets nothing out of later traffic either: an application message or a
+    /// proposal of an epoch after its removal is refused and leaves the retained group as it was.
+    pub fn ghost_traffic(&mut self, mi: usize) {
+        let msg = self.w.msgs[mi].msg.clone();
+        let kind = self.w.msgs[mi].kind;
+        let mepoch = self.w.msgs[mi].epoch;
+        for i in 0..self.w.members.len() {
+            for gi in 0..self.w.members[i].ghosts.len() {
+                let g = &mut self.w.members[i].ghosts[gi];
+                if g.current_epoch() >= mepoch {
+                    continue;
+                }
+                let before = (g.current_epoch(), g.epoch_authenticator().ok().map(|s| s.as_bytes().to_vec()));
+                let m = msg.clone();
+                let r = std::panic::catch_unwind(std::panic::AssertUnwindSafe(|| g.process_incoming_message(m)));
+                let after = (g.current_epoch(), g.epoch_authenticator().ok().map(|s| s.as_bytes().to_vec()));
+                let n = self.w.members[i].setup.name.clone();
+                *self.rep.ops.entry("ghost-traffic".into()).or_default() += 1;
+                match r {
+                    Ok(Ok(_)) => self.fail("C02", format!("removed member {n} (epoch {}) processed the {kind} m{mi} of epoch {mepoch}", before.0)),
+                    Ok(Err(_)) => {
+                        if before != after {
+                            self.fail("C02", format!("removed member {n} refused the {kind} m{mi} but its retained group changed"));
+                        }
+                    }
+                    Err(_) => self.fail("C03", format!("panic while removed member {n} processed the {kind} m{mi}")),
+                }
             }
         }
     }
